@@ -175,6 +175,19 @@ static void step_prepare(int who, unsigned vl, int history)
     /* values, CCCDs: unchanged in every case (model untouched) */
 }
 
+/* a Prepare Write Request that is too short to carry handle and offset (1..4 octets) is malformed: it must not be
+   accepted, nothing may be queued for it (an Execute Write would otherwise apply a write the client never specified) */
+static void step_short_prepare(int who, unsigned sl)
+{
+    uint8_t* pdu = vf_alloc(sl);
+    in_bytes(pdu, sl);
+    pdu[0] = 0x16;
+    uint8_t* out = vf_alloc(65); size_t os = 65;
+    vf_d7_input(cfg, who, pdu, sl, out, &os);
+    OBSERVE(os); OBSERVE_BYTES(out, os);
+    CHECK(is_error(out, os, 0x16), "a Prepare Write Request without complete handle and offset is answered by an Error Response");
+}
+
 static int step_execute(int who)
 {
     uint8_t* pdu = vf_alloc(2);
@@ -260,6 +273,7 @@ void harness(void)
             if (op == 1) step_prepare(who, vl, 1);
             else if (op == 2) undefined = step_execute(who);
             else if (op == 3) step_write(who, wl);
+            else if (op == 5) step_short_prepare(who, (unsigned)CASE(SL));
             else {
                 vf_d7_disconnect(cfg, who);
                 if (owner == who + 1) release();
